@@ -2269,6 +2269,9 @@ impl QueryRouter {
         )
     }
 
+    /// Statements after which a cached SELECT / SIMILAR / NEIGHBORS / PATH answer may be stale:
+    /// every statement family that can change tables, the graph or the embeddings, including a
+    /// rollback to a checkpoint.
     const fn is_write_statement(stmt: &Statement) -> bool {
         matches!(
             &stmt.kind,
@@ -2279,6 +2282,16 @@ impl QueryRouter {
                 | StatementKind::DropTable(_)
                 | StatementKind::CreateIndex(_)
                 | StatementKind::DropIndex(_)
+                | StatementKind::Node(_)
+                | StatementKind::Edge(_)
+                | StatementKind::Embed(_)
+                | StatementKind::Entity(_)
+                | StatementKind::Rollback(_)
+                | StatementKind::Chain(_)
+                | StatementKind::GraphBatch(_)
+                | StatementKind::CypherCreate(_)
+                | StatementKind::CypherDelete(_)
+                | StatementKind::CypherMerge(_)
         )
     }
 
